@@ -679,14 +679,19 @@ def step_shape_nonview(b: Builder, name=None):
         out_shape = np.broadcast_shapes(shp, b.shape(c))
         n = int(np.prod(out_shape)) if len(out_shape) else 1
         cond = d(st.lists(st.booleans(), min_size=n, max_size=n))
-        return b.op("where", [a, c], {"cond": cond, "cshape": list(out_shape)}, constant=draw_const_flag(b))
+        p = {"cond": cond, "cshape": list(out_shape)}
+        if d(st.integers(0, 2)) == 0:
+            p["cdtype"] = d(st.sampled_from(["int64", "int8", "uint8", "float64"]))
+            p["cscale"] = d(st.sampled_from([1, 2, 3]))
+        return b.op("where", [a, c], p, constant=draw_const_flag(b))
     return None
 
 
 def step_nary(b: Builder, name=None):
     d = b.draw
     name = name or d(st.sampled_from(NARY + ["multi_matmul"]))
-    fl = b.float_handles()
+    # (einsum can return a view: in histories it is only applied to tensors, like every view op)
+    fl = b.float_handles(tensors_only=b.views_tensors_only and name == "einsum")
     a = b.pick(fl)
     if a is None:
         return None
@@ -1015,7 +1020,7 @@ def step_shape_assign(b: Builder):
 
 
 def step_read(b: Builder):
-    f = b.draw(st.sampled_from([step_unary, step_binary, step_binary, step_reduce, step_shape_nonview]))
+    f = b.draw(st.sampled_from([step_unary, step_binary, step_binary, step_reduce, step_shape_nonview, step_nary]))
     return f(b)
 
 
@@ -1055,10 +1060,22 @@ def history_program(draw, max_steps=14, max_elems=16, with_shape_assign=True, wi
     fns = [f for f, w in HISTORY_STEPS for _ in range(w) if with_shape_assign or f is not step_shape_assign]
     if with_fail:
         fns = fns + [step_fail] * 7
+    # the process-wide memory-guard switch may be flipped at drawn points of the history (values, sharing and
+    # gradients must not depend on it)
+    # (only for the history as a whole: flipping the switch while graphs are alive is not a documented use)
+    guard_mode = draw(st.sampled_from(["on", "on", "on", "off"]))
+    if guard_mode == "off":
+        b.stmts.append({"k": "guard", "on": False})
+        b.labels.add("mem_guard_off")
     made = 0
     attempts = 0
+    guard_on = guard_mode != "off"
     while made < nsteps and attempts < nsteps * 3:
         attempts += 1
+        if guard_mode == "toggle" and draw(st.integers(0, 4)) == 0:
+            guard_on = not guard_on
+            b.stmts.append({"k": "guard", "on": guard_on})
+            b.labels.add("mem_guard_toggled")
         f = draw(st.sampled_from(fns))
         if f(b) is not None:
             made += 1
